@@ -49,6 +49,11 @@ for _c in SEQ:
             if cap is not None and len(hl.items) >= cap: raise PanicEdge('ub', f'{c}::push_unchecked beyond capacity {cap}')
             hl.items.append(a[1]); return UNIT
 
+        @path(f'{c}::inline_size', f'{c}::capacity')
+        def _(vm, a, ci):
+            cap = _capacity(ci)
+            return cap if cap is not None else max(8, len(seq(vm, a[0])[0].items))
+
         @path(f'{c}::try_push')
         def _(vm, a, ci):
             hl = seq(vm, a[0])[0]
@@ -236,7 +241,7 @@ def _(vm, a, ci):
 
 
 # ---- slices
-@path_rx(r'<impl \[.*?\]>::(len|is_empty|iter|iter_mut|first|last|get|get_mut|get_unchecked|get_unchecked_mut|contains|to_vec|split_first|split_last|as_ptr|as_ptr_range|into_vec|concat|join|sort|sort_by|sort_by_key|sort_unstable|sort_unstable_by|sort_unstable_by_key|reverse|split_at|starts_with|ends_with|windows|chunks)')
+@path_rx(r'<impl \[.*?\]>::(len|is_empty|iter|iter_mut|first|last|first_mut|last_mut|get|get_mut|get_unchecked|get_unchecked_mut|contains|to_vec|split_first|split_last|as_ptr|as_ptr_range|into_vec|concat|join|sort|sort_by|sort_by_key|sort_unstable|sort_unstable_by|sort_unstable_by_key|reverse|split_at|starts_with|ends_with|windows|chunks)')
 def _(vm, a, ci):
     m = ci.method
     if m == 'into_vec': return Adt('Vec', 0, [vm.ref_get(vm.box_ptr(a[0]))])
@@ -244,15 +249,15 @@ def _(vm, a, ci):
     if isinstance(s, BStr):       # &[u8] view of a str (as_bytes)
         if m == 'len': return s.nbytes()
         if m == 'is_empty': return s.nbytes() == 0
-        if m == 'as_ptr': return Ref(Cell(s.buf), (), s.start)
+        if m == 'as_ptr': return Ref(_bufcell(s.buf), (), s.start)
         if m == 'as_ptr_range': return Adt('Range', 0, [Ref(_bufcell(s.buf), (), s.start), Ref(_bufcell(s.buf), (), s.end)])
         raise Unmodelled('byte-slice method on str: ' + m)
     items = vm.ref_get(s.ref).items; n = s.end - s.start
     if m == 'len': return n
     if m == 'is_empty': return n == 0
     if m in ('iter', 'iter_mut'): return It('refs', s.ref, s.start, s.end)
-    if m == 'first': return some(Ref(s.ref.cell, s.ref.path + (s.start,))) if n else NONE()
-    if m == 'last': return some(Ref(s.ref.cell, s.ref.path + (s.end - 1,))) if n else NONE()
+    if m in ('first', 'first_mut'): return some(Ref(s.ref.cell, s.ref.path + (s.start,))) if n else NONE()
+    if m in ('last', 'last_mut'): return some(Ref(s.ref.cell, s.ref.path + (s.end - 1,))) if n else NONE()
     if m in ('get', 'get_mut'): return _get(vm, None, s.ref, s.start, s.end, a[1])
     if m in ('get_unchecked', 'get_unchecked_mut'):
         i = a[1]
